@@ -15,6 +15,7 @@ package table
 //@   ensures  #entry: result != nil && fresh(result)
 //@   ensures  #inv_out: t.inv()
 //@   ensures  #index_kept: forall h uint64 {t.has(h)} :: t.has(h) == old(t.has(h)) && t.off(h) == old(t.off(h))
+//@   ensures  #keys_kept: forall o int {t.keyAt(o)} :: t.keyAt(o) == old(t.keyAt(o))
 //@   modifies elems(t.memory)
 
 // One table's part of a scan. Live offsets at or after the cursor are taken in ascending order, each at most once;
@@ -35,12 +36,20 @@ package table
 //@   loop 0 invariant #temporaries: onlyfresh(elems(t.memory))
 //@   modifies elems(t.memory)
 
-// The filtered variant differs only in skipping entries whose key does not match; its loop is not verified yet
-// (regexp is external): the cursor range it hands back is assumed.
+// matchesAt: the key stored at offset o matches the expression (regexp matching is uninterpreted).
+//@ pure func (t *Table) matchesAt(o int, expr string) bool = uf(regex_match, Bool, expr, t.keyAt(o))
+
+// The filtered variant skips an entry only when its key does not match: every live offset the iterator has passed
+// whose key matches lies below the cursor (it was handed to the callback and accepted).
 //@ func (t *Table) ScanRegexMatch(cursor uint64, expr string, count int, f func(e storage.Entry) bool) (uint64, error)
 //@   props C12
-//@   trusted
 //@   requires #inv: t != nil && t.offsetIndex != nil && t.inv() && f != nil
+//@   requires #cursor_range: cursor <= 4611686018427387904
 //@   ensures #cursor [C12]: result.1 == nil ==> (result.0 == 0 || (cursor <= result.0 && result.0 < t.allocated))
 //@   ensures #inv_out: t.inv()
+//@   loop 0 invariant #iter: it != nil && r != nil && r.src == expr && it.set == t.offsetIndex.set && t.offsetIndex.set == old(t.offsetIndex.set) && t.inv() && 0 <= num &&
+//@                old(cursor) <= cursor && (cursor == old(cursor) || (cursor >= 1 && t.offsetIndex.set[cursor - 1] && it.pos >= cursor)) &&
+//@                (cursor == old(cursor) ==> it.pos >= cursor || old(cursor) == 0)
+//@   loop 0 invariant #no_matching_entry_is_skipped [C12]: forall x uint64 {it.set[x]} :: it.set[x] && x >= old(cursor) && x < it.pos && t.matchesAt(x, expr) ==> x < cursor
+//@   loop 0 invariant #temporaries: onlyfresh(elems(t.memory))
 //@   modifies elems(t.memory)
